@@ -395,8 +395,20 @@ class Grid(object):
                       + f" data has {ncols}, but expects {self.ncols}."
             raise ValueError(errmess)
 
-        self._data = np.clip(_value, self.mindata,
-                             self.maxdata).astype(self.dtype)
+        self._data = self._clipdata(_value)
+
+    def _clipdata(self, value):
+        """ Clip values to [mindata, maxdata] and convert to grid dtype.
+        Infinite bounds are not applied to avoid converting integer
+        values to float.
+        """
+        if np.isfinite(self.mindata):
+            value = np.maximum(value, self.mindata)
+
+        if np.isfinite(self.maxdata):
+            value = np.minimum(value, self.maxdata)
+
+        return np.array(value, dtype=self.dtype)
 
     @property
     def nodata(self):
@@ -508,8 +520,7 @@ class Grid(object):
                       + f" expecting {nval}."
             raise ValueError(errmess)
 
-        self._data = np.clip(data.reshape((self.nrows, self.ncols)),
-                             self.mindata, self.maxdata).astype(self.dtype)
+        self._data = self._clipdata(data.reshape((self.nrows, self.ncols)))
 
     def to_dict(self):
         """ Export grid metadata to json """
